@@ -625,7 +625,7 @@ def run(ctx):
     cases = list(sweep_cases())
     ctx.sweep(cases, check_case)
     ctx.extra["sweep_cases"] = len(cases)
-    ctx.hyp(strategy, check_case, max_examples=ctx.pick(1500, 40000), tag="c24")
+    ctx.hyp(strategy, check_case, max_examples=ctx.pick(1500, 20000), tag="c24")
 
 
 def replay(case):
